@@ -148,6 +148,12 @@ Lemma tie_sorter_compare : TIE_sorter_compare =
    (0, "return(bytes_compare(entry_key(a),a->len_key,entry_key(b),b->len_key))")].
 Proof. reflexivity. Qed.
 
+(* mtbl/sorter.c: _collect_readers_cb *)
+Lemma tie_sorter_collect_cb : TIE_sorter_collect_cb =
+  [(0, "structmtbl_sorter*s=sorter");
+   (0, "reader_vec_add(s->readers,reader)")].
+Proof. reflexivity. Qed.
+
 (* libmy/vector.h: whole file *)
 Lemma tie_vector_h : TIE_vector_h =
   [(0, "#include<assert.h>");
